@@ -850,6 +850,14 @@ func mutexUnlock(m *Machine, fr *frame, a []value) value {
 	}
 	m.raceSync(p, false, true)
 	delete(s.mutexHeld, p)
+	// a task waiting for this mutex may get to run right away (on a real machine
+	// it runs in parallel with what the releasing goroutine does next)
+	for _, t := range s.tasks {
+		if t != s.cur && t.blocked && !t.done && t.waitCond != nil && t.waitCond() {
+			m.yield()
+			break
+		}
+	}
 	return nil
 }
 
